@@ -99,3 +99,40 @@ CLAIMED["C12"] = {
     "design_ref": "DESIGN.md §4 C12",
     "note": TB,
 }
+
+FSM = ("finite-state extraction by abstract interpretation of the MIR over byte classes (value-set domain, trace partitioning, "
+       "fixpoint over the finite abstract state space) and product exploration to closure against a reference written from the statement")
+
+CLAIMED["C02"] = {
+    "engine": "E4 finite-state extraction + equivalence",
+    "technique": FSM,
+    "text": ("Decides for all byte streams: the scalar decoder (Utf8Accum) emits, in every reachable state and for every input byte, exactly one "
+             "well-formed scalar of Unicode Table 3-7 or nothing; from every reachable state any well-formed sequence is decoded to itself "
+             "(resynchronisation); the answer is a function of (state, byte). The alphabet is a partition of 0..255 respecting every constant "
+             "of the code and of the table, so the result is exact, not sampled. Not decided yet: the who-writes-text-buffers taint and the "
+             "classification of every unchecked string constructor (pending), char-boundary facts of the counting helpers."),
+    "design_ref": "DESIGN.md §4 C02, §2 E4, App. B.1",
+    "note": TB + " specs/utf8.py transcribes Table 3-7.",
+}
+CLAIMED["C04"] = {
+    "engine": "E4 finite-state extraction + equivalence",
+    "technique": FSM,
+    "text": ("Decides, exactly on the quantified language (streams of key units of any length): InputGenerator's byte-accepting method, with "
+             "the scalar decoder and bitflags helpers inlined, agrees with the reference key decoder in every reachable pair of states for "
+             "every byte class: one Char per well-formed scalar from U+0020, BS/TAB, greedy CR LF / LF CR pairing with N terminators -> N "
+             "Enters, CSI arrows, nothing leaking from a control sequence, other C0 ignored; DEL unconstrained."),
+    "design_ref": "DESIGN.md §4 C04, App. B.2",
+    "note": TB + " specs/keydecoder.py is the reference; streams outside the quantified language (ill-formed UTF-8, malformed CSI) are not compared.",
+}
+CLAIMED["C07"] = {
+    "engine": "E4 finite-state extraction + equivalence",
+    "technique": FSM,
+    "text": ("Decides, for all NUL-free lines of any length: the loop of Tokens::new, extracted as a transducer (state = source variables live "
+             "across the back edge, input = byte class loaded at the loop index, output = stores into the same buffer), is equivalent to the "
+             "reference tokenizer written from the statement (separator before every token after the first, quotes special only at token start, "
+             "backslash escapes inside quotes, unterminated quote / trailing backslash end the token, bytes >= 0x80 never special); the returned "
+             "`empty` flag equals `no token started`; TokensIter::next splits at each separator (decision table). The round-trip law is argued on "
+             "the reference and transferred by equivalence."),
+    "design_ref": "DESIGN.md §4 C07, App. B.3",
+    "note": TB + " specs/tokenizer.py is the reference.",
+}
